@@ -64,6 +64,14 @@ fn main() -> ExitCode {
 
 fn supervise(prop: &str, tier: Tier) -> ExitCode {
     let exe = std::env::current_exe().expect("current_exe");
+    // stale records of an earlier (crashed) run must not be mistaken for this run's cases
+    if let Ok(rd) = std::fs::read_dir(lsv_core::runner::verif_dir().join("work").join(prop)) {
+        for e in rd.flatten() {
+            if e.file_name().to_string_lossy().starts_with("current-") {
+                let _ = std::fs::remove_file(e.path());
+            }
+        }
+    }
     let timeout_s: u64 = std::env::var("LSV_TIMEOUT_S").ok().and_then(|s| s.parse().ok()).unwrap_or(match tier {
         Tier::Quick => 1500,
         Tier::Thorough => 4 * 3600,
